@@ -222,6 +222,39 @@ pub fn run(ctx: &Ctx) -> i32 {
     }
     let s1d = SubReport::new("sources", "A", "with_file + build on source paths of every kind: regular files whose modification time is 1901, −366 d, −2 s … 2^33 s, year 9999 (× whole / half second), a directory, a missing path, an empty path, a dangling and a self-referential symbolic link, a file with mode 000, kernel-backed files, /dev/null; oracle: Ok or Err, never a panic. non-trivial = accepted", a4);
 
+    // ---- link targets of symbolic-link entries: any text, at links of several depths
+    let ltok = ["/", "..", ".", "a"];
+    let llen = if ctx.thorough() { 7 } else { 5 };
+    let nl = strings_count(ltok.len(), llen);
+    let a5 = merge(par_fold(nl * 3, Acc::new, |j, acc| {
+        let (i, at) = (j / 3, ["/link", "/opt/link", "./a/b/link"][(j % 3) as usize]);
+        let mut t = vec![];
+        strings_nth(i, ltok.len(), &mut t);
+        let target: String = t.iter().map(|x| ltok[*x]).collect();
+        acc.evals += 1;
+        let case = || json!({"kind": "link-target", "link": at, "target": target});
+        let r = catch(|| {
+            PackageBuilder::new("t", "1", "MIT", "noarch", "s")
+                .compression(none)
+                .with_file(&src, FileOptions::new(at).mode(rpm::FileMode::symbolic_link(0o777)).symlink(target.clone()))
+                .and_then(|b| b.build())
+                .map(|_| ())
+                .map_err(|e| err_kind(&e))
+        });
+        match r {
+            Err(p) => acc.viol(panic_violation("link-targets", &p, case()).sig("arg", "symlink").rank(j)),
+            Ok(Err(k)) => acc.count(&format!("rejected: {}", k)),
+            Ok(Ok(())) => {
+                acc.nontrivial += 1;
+                acc.count("accepted");
+            }
+        }
+        if j % 997 == 0 {
+            acc.sample(j, case);
+        }
+    }));
+    let s1e = SubReport::new("link-targets", "A", &format!("every sequence of ≤ {} tokens over {:?} ({} strings, incl. the empty one) as the link target of a symbolic-link entry at /link, /opt/link and ./a/b/link (targets that climb above the root, absolute, empty, with redundant components); oracle: Ok or Err, never a panic. non-trivial = accepted", llen, ltok, nl), a5);
+
     // ---- capability text (the acceptance iff is C19's; here: no panic and unknown text is an error)
     let ctoks = ["cap_chown", "all", "bogus", ",", "=", "+", "e", "p", " ", "\t", "é", "\0"];
     let n2 = strings_count(ctoks.len(), 4);
@@ -331,7 +364,7 @@ pub fn run(ctx: &Ctx) -> i32 {
     }
     ctx.finish(
         "exploration",
-        vec![s1, s1b, s1c, s1d, s2, s3, s4],
+        vec![s1, s1b, s1c, s1d, s1e, s2, s3, s4],
         &[
             "which in-between destinations (e.g. '/a/.', '/../a') are accepted is not specified; they must only not panic and, if accepted, give a usable package",
             "timestamp arguments of non-integer types (chrono dates before 1970) are outside the statement's 'strings and numbers'",
